@@ -165,6 +165,9 @@ FIBER_VARIANTS = {
                            lumped=[{'position': 40.0, 'loss': 0.5}, {'position': 90.0, 'loss': 1.5}]),
     'ssmf5': dict(type_variety='SSMF', length=5.0, loss_coef=0.25, lumped=[{'position': 2.0, 'loss': 2.0}]),
     'negdisp60': dict(type_variety='SSMF', length=60.0, loss_coef=0.21, lumped=[], extra={'dispersion': -8e-6}),
+    # per-frequency loss table given in descending frequency order (ascending wavelength)
+    'perfreq_desc70': dict(type_variety='SSMF', length=70.0, lumped=[{'position': 30.0, 'loss': 1.0}],
+                           loss_coef={'frequency': [196.0e12, 194.0e12, 192.5e12, 191.0e12], 'value': [0.23, 0.2, 0.19, 0.21]}),
 }
 
 
@@ -201,9 +204,15 @@ def h_fiber(ctx, variant, k, props, pmax=0.01, nli_method='gn_model_analytic'):
     # call propagate (the body of __call__ apart from that attribute)
     fiber.propagate(si)
     # independent oracle for the span budget in dB (concrete part) and linear (symbolic part)
-    fibre_db = v['loss_coef'] * v['length'] + sum(x['loss'] for x in v['lumped'])
-    fibre_lin = 10 ** (fibre_db / 10)
+    def coef_at(f):
+        lc = v['loss_coef']
+        if isinstance(lc, dict):
+            pairs = sorted(zip(lc['frequency'], lc['value']))
+            return float(np.interp(f, [x for x, _ in pairs], [y for _, y in pairs]))
+        return lc
+    lumped_db = sum(x['loss'] for x in v['lumped'])
     for i in range(k):
+        fibre_lin = 10 ** ((coef_at(pre['f'][i]) * v['length'] + lumped_db) / 10)
         if 'C05' in props:
             ctx.prove(f'fiber:loss_budget[{i}]',
                       approx(si._pch[i] * att_in_lin * con_in_lin * con_out_lin * fibre_lin, pre['p'][i], 1e-9))
@@ -213,6 +222,7 @@ def h_fiber(ctx, variant, k, props, pmax=0.01, nli_method='gn_model_analytic'):
             ctx.prove(f'fiber:pmd_quadrature[{i}]', approx(si.pmd[i] ** 2 - pmd0[i] ** 2,
                                                          float(fiber.params.pmd_coef) ** 2 * v['length'] * 1e3, 1e-9))
     if 'C05' in props:
+        fibre_db = coef_at(float(fiber.params.ref_frequency)) * v['length'] + lumped_db
         ctx.prove('fiber:loss_property', approx_db(fiber.loss, att_in + con_in + con_out + fibre_db, 1e-9))
     if 'C01' in props:
         c01_obligations(ctx, si, 'fiber')
